@@ -6,10 +6,13 @@ path = '/verif/known_findings.json'
 d = json.load(open(path))
 if sys.argv[1] == 'add':
     _, _, fid, prop, status, kind, key, commit, what, *wit = sys.argv
+    keep = [w[5:] for w in wit if w.startswith('keep=')]
+    wit = [w for w in wit if not w.startswith('keep=')]
     d['findings'] = [f for f in d['findings'] if f['id'] != fid]
     e = {'id': fid, 'property': prop, 'status': status, 'kind': kind, 'what': what, 'witness': wit}
     if key != '-': e['key'] = key
     if commit != '-': e['commit'] = commit
+    if keep: e['replay_keep'] = keep
     if status == 'fixed':
         e['record'] = 'fixed: property=%s %s %s' % (prop, commit, what)
     d['findings'].append(e)
